@@ -167,8 +167,14 @@ where
         let mut info = component::StreamInfo::new(sample_rate, channels, bits_per_sample)?;
         info.set_total_samples(total_samples);
         info.set_md5_digest(md5.try_into().expect("Internal error"));
-        info.set_block_sizes(min_block_size as usize, max_block_size as usize)?;
-        info.set_frame_sizes(min_frame_size as usize, max_frame_size as usize)?;
+        // a stream without frames carries the placeholders of `StreamInfo::new`
+        // (`u16::MAX`/0 and the low 24 bits of `u32::MAX`/0); keep them as they are.
+        if (min_block_size, max_block_size) != (u16::MAX, 0) {
+            info.set_block_sizes(min_block_size as usize, max_block_size as usize)?;
+        }
+        if (min_frame_size, max_frame_size) != (0x00FF_FFFF, 0) {
+            info.set_frame_sizes(min_frame_size as usize, max_frame_size as usize)?;
+        }
         let ret: Result<_, VerifyError> = Ok(info);
         ret
     };
